@@ -59,7 +59,7 @@ def run(ctx):
         if not entry.fit or not entry.rowwise or not entry.methods:
             ctx.skipped.append("%s: no row-wise method exercised here" % entry.name)
             continue
-        for rep in range(4 if thorough else 2):
+        for rep in range(14 if thorough else 2):
             tid += 1
             hist = lifecycle.History(tid, "C04 " + entry.name, "batch / permutation / sub-batch / single rows / pickle / clone-with-fitted")
             scenario(hist, entry, rng, rep % 2)
